@@ -5,7 +5,8 @@ cd "$(dirname "$0")/.."
 WT=/tmp/wt-confirm
 git -C /repo worktree remove --force $WT 2>/dev/null
 git -C /repo worktree add -q --detach $WT HEAD || exit 2
-for d in seeded/C??-?; do
+DIRS="$*"; [ -z "$DIRS" ] && DIRS=$(ls -d seeded/C??-?)
+for d in $DIRS; do
   P="$PWD/$d/patch.diff"
   git -C $WT checkout -q -- . 
   if ! git -C $WT apply "$P" 2>/dev/null; then echo "$d: PATCH DOES NOT APPLY"; continue; fi
